@@ -422,15 +422,26 @@ struct ProgOutcome {
 }
 
 fn run_observed(text: &str, stdin: &[u8]) -> ProgOutcome {
+    run_observed_watch(text, stdin, None).0
+}
+
+/// `run_observed`, and the last value seen in the variable `watch` (any memory block).
+fn run_observed_watch(text: &str, stdin: &[u8], watch: Option<&str>) -> (ProgOutcome, Option<Variant>) {
     let viol: Rc<RefCell<Vec<String>>> = Rc::new(RefCell::new(vec![]));
     let count: Rc<RefCell<u64>> = Rc::new(RefCell::new(0));
+    let seen: Rc<RefCell<Option<Variant>>> = Rc::new(RefCell::new(None));
     let v2 = viol.clone();
     let c2 = count.clone();
+    let s2 = seen.clone();
+    let watch_owned: Option<String> = watch.map(|w| w.to_owned());
     let observer = Box::new(move |s: &Snapshot| {
         if let Some(blocks) = &s.vars {
             for b in blocks {
                 for (name, value) in b {
                     *c2.borrow_mut() += 1;
+                    if watch_owned.as_deref() == Some(name.as_str()) {
+                        *s2.borrow_mut() = Some(value.clone());
+                    }
                     let mut out = vec![];
                     check_named(name, value, &mut out);
                     if !out.is_empty() {
@@ -460,7 +471,258 @@ fn run_observed(text: &str, stdin: &[u8]) -> ProgOutcome {
     };
     let violations = viol.borrow().clone();
     let checked_values = *count.borrow();
-    ProgOutcome { violations, result, checked_values }
+    let last = seen.borrow().clone();
+    (ProgOutcome { violations, result, checked_values }, last)
+}
+
+/// Runs a program too large for the per-instruction dump and reads the value of `var` from the single
+/// number the program prints; the value is checked against the variable's declared type like a dumped one.
+fn run_printed(text: &str, var: &str) -> (ProgOutcome, Option<Variant>) {
+    let text_owned = text.to_owned();
+    let r = std::panic::catch_unwind(std::panic::AssertUnwindSafe(|| run_in_memory(&text_owned, b"", 5_000_000, None, false)));
+    let mut last: Option<Variant> = None;
+    let result = match r {
+        Ok(Ok(r)) => {
+            let out = String::from_utf8_lossy(&r.stdout).trim().to_owned();
+            if let Ok(n) = out.parse::<i64>() {
+                // the program prints an INTEGER variable: the carrier of an INTEGER is an i32
+                last = Some(if var.ends_with('%') && i32::try_from(n).is_ok() { Variant::VInteger(n as i32) } else { Variant::VLong(n) });
+            }
+            match r.result {
+                Ok(()) => format!("ok stdout={:?}", String::from_utf8_lossy(&r.stdout)),
+                Err(e) => format!("runtime-error {:?}", e),
+            }
+        }
+        Ok(Err(e)) => format!("front-end-error {:?}", e),
+        Err(_) => "panic".to_owned(),
+    };
+    let mut violations = vec![];
+    if let Some(v) = &last {
+        check_named(var, v, &mut violations);
+    }
+    (ProgOutcome { violations, result, checked_values: last.is_some() as u64 }, last)
+}
+
+// ---- built-in function results -----------------------------------------------------------------------
+
+/// One program of the family `builtin-result`: the result of the built-in `func` is stored in `var`
+/// (declared by suffix); `req` is the driver request for what the built-in hands over (`None`: only the
+/// property is checked).
+struct BuiltinCase {
+    func: &'static str,
+    text: String,
+    var: String,
+    req: Option<String>,
+    /// run without the per-instruction observer (programs with tens of thousands of variables):
+    /// the value is read from the program's own `PRINT` of the variable
+    unobserved: bool,
+}
+
+/// A string expression of `n` blanks (`SPACE$` takes an INTEGER).
+fn spaces_expr(n: usize) -> String {
+    if n == 0 {
+        return "\"\"".to_owned();
+    }
+    let mut parts: Vec<String> = vec![];
+    let mut left = n;
+    while left > 0 {
+        let k = left.min(32767);
+        parts.push(format!("SPACE$({})", k));
+        left -= k;
+    }
+    parts.join(" + ")
+}
+
+fn builtin_cases(rng: &mut Rng, thorough: bool) -> Vec<BuiltinCase> {
+    let mut cases: Vec<BuiltinCase> = vec![];
+    let mut add = |func: &'static str, text: String, var: &str, req: Option<String>| {
+        cases.push(BuiltinCase { func, text: format!("{}Z9% = 0\n", text), var: var.to_owned(), req, unobserved: false });
+    };
+    let lens: [usize; 9] = [0, 1, 255, 32766, 32767, 32768, 32777, 65536, 70000];
+    // LEN of a string of every boundary length, stored in a variable of the static type (INTEGER: no Cast) ...
+    for &n in &lens {
+        add("len", format!("A$ = {}\nL% = LEN(A$)\n", spaces_expr(n)), "L%", Some(format!("(bres.len (rep {} 32 ()))", n)));
+        add("len", format!("L% = LEN({})\n", spaces_expr(n)), "L%", Some(format!("(bres.len (rep {} 32 ()))", n)));
+    }
+    // ... and in the other numeric types (a Cast follows; the call itself must already have raised Overflow),
+    // as an array element, a record field, a by-value parameter, a function result, an array bound
+    for &n in &[32767usize, 32777] {
+        let req = Some(format!("(bres.len (rep {} 32 ()))", n));
+        for sfx in ["&", "!", "#"] {
+            add("len", format!("A$ = {}\nL{} = LEN(A$)\n", spaces_expr(n), sfx), &format!("L{}", sfx), req.clone());
+        }
+        add("len", format!("DIM ARR%(1 TO 2)\nA$ = {}\nARR%(2) = LEN(A$)\nL% = ARR%(2)\n", spaces_expr(n)), "L%", req.clone());
+        add("len", format!("TYPE T\n FI AS INTEGER\nEND TYPE\nDIM R AS T\nA$ = {}\nR.FI = LEN(A$)\nL% = R.FI\n", spaces_expr(n)), "L%", req.clone());
+        add("len", format!("DECLARE SUB P (X%)\nDIM SHARED L%\nA$ = {}\nP LEN(A$)\nSUB P (X%)\n L% = X%\nEND SUB\n", spaces_expr(n)), "L%", req.clone());
+        add("len", format!("DECLARE FUNCTION F% (S$)\nA$ = {}\nL% = F%(A$)\nFUNCTION F% (S$)\n F% = LEN(S$)\nEND FUNCTION\n", spaces_expr(n)), "L%", req.clone());
+        add("len", format!("A$ = {}\nFOR L% = LEN(A$) TO LEN(A$)\nNEXT\n", spaces_expr(n)), "L%", None);
+        add("len", format!("A$ = {}\nDIM X(LEN(A$) TO LEN(A$))\nL% = UBOUND(X)\n", spaces_expr(n)), "L%", req.clone());
+        add("len", format!("A$ = {}\nL% = LEN(A$) - 10\n", spaces_expr(n)), "L%", None);
+    }
+    // LEN of the four numeric scalars
+    for (sfx, v) in [("%", "(int 0)"), ("&", "(long 0)"), ("!", "(sgl 0 1)"), ("#", "(dbl 0 1)")] {
+        add("len", format!("X{} = 0\nL% = LEN(X{})\n", sfx, sfx), "L%", Some(format!("(bres.len {})", v)));
+    }
+    // LEN of a record whose fields add up to every boundary size (fixed-length strings, an INTEGER, a nested record)
+    for (a, b) in [(100usize, 5usize), (32766, 1), (32767, 1), (32767, 10), (32000, 32000)] {
+        add(
+            "len",
+            format!("TYPE T\n S AS STRING * {}\n U AS STRING * {}\nEND TYPE\nDIM R AS T\nL% = LEN(R)\n", a, b),
+            "L%",
+            Some(format!("(bres.lenrec (rep {} 32 ()) (rep {} 32 ()))", a, b)),
+        );
+    }
+    for a in [32765usize, 32766] {
+        add(
+            "len",
+            format!("TYPE T\n S AS STRING * {}\n FI AS INTEGER\nEND TYPE\nDIM R AS T\nL% = LEN(R)\n", a),
+            "L%",
+            Some(format!("(bres.lenrec (rep {} 32 ()) (int 0))", a)),
+        );
+        add(
+            "len",
+            format!("TYPE I\n FD AS DOUBLE\n FL AS LONG\nEND TYPE\nTYPE T\n S AS STRING * {}\n N AS I\nEND TYPE\nDIM R AS T\nL% = LEN(R)\n", a - 10),
+            "L%",
+            Some(format!("(bres.lenrec (rep {} 32 ()) (dbl 0 1) (long 0))", a - 10)),
+        );
+    }
+    // INSTR: the needle at every boundary position, with and without a start position, not found, empty operands
+    for &n in &[0usize, 5, 32765, 32766, 32767, 32777, 69999] {
+        add(
+            "instr",
+            format!("A$ = {} + \"X\"\nP% = INSTR(A$, \"X\")\n", spaces_expr(n)),
+            "P%",
+            Some(format!("(bres.instr 1 (rep {} 32 (88)) (str (88)))", n)),
+        );
+        add(
+            "instr",
+            format!("A$ = {} + \"XY\"\nP% = INSTR(A$, \"XY\")\n", spaces_expr(n)),
+            "P%",
+            Some(format!("(bres.instr 1 (rep {} 32 (88 89)) (str (88 89)))", n)),
+        );
+        for start in [2usize, 32767] {
+            add(
+                "instr",
+                format!("A$ = {} + \"X\"\nP% = INSTR({}, A$, \"X\")\n", spaces_expr(n), start),
+                "P%",
+                Some(format!("(bres.instr {} (rep {} 32 (88)) (str (88)))", start, n)),
+            );
+        }
+        add(
+            "instr",
+            format!("A$ = {} + \"X\"\nP% = INSTR(A$, \"Y\")\nQ% = INSTR(A$, \"\")\n", spaces_expr(n)),
+            "P%",
+            Some(format!("(bres.instr 1 (rep {} 32 (88)) (str (89)))", n)),
+        );
+        add(
+            "instr",
+            format!("A$ = {} + \"X\"\nP& = INSTR(A$, \"X\")\n", spaces_expr(n)),
+            "P&",
+            Some(format!("(bres.instr 1 (rep {} 32 (88)) (str (88)))", n)),
+        );
+    }
+    add("instr", "P% = INSTR(\"\", \"X\")\n".to_owned(), "P%", Some("(bres.instr 1 (str ()) (str (88)))".to_owned()));
+    add("instr", "P% = INSTR(\"abc\", \"\")\n".to_owned(), "P%", Some("(bres.instr 1 (str (97 98 99)) (str ()))".to_owned()));
+    // VARPTR: a variable behind a string of every boundary length (the offset is the size of what precedes it),
+    // and an element far inside a large array
+    for &n in &[0usize, 32766, 32767, 32768, 32777, 70000] {
+        add(
+            "varptr",
+            format!("A$ = {}\nB% = 1\nP% = VARPTR(B%)\n", spaces_expr(n)),
+            "P%",
+            Some(format!("(bres.varptr {})", n)),
+        );
+    }
+    for k in [1usize, 8192, 8193, 20000] {
+        add(
+            "varptr",
+            format!("DIM A(1 TO 20000) AS LONG\nP% = VARPTR(A({}))\n", k),
+            "P%",
+            Some(format!("(bres.varptr {})", (k - 1) * 4)),
+        );
+    }
+    // VARSEG: a plain variable, an element of the first and second array
+    add("varseg", "B% = 1\nS% = VARSEG(B%)\n".to_owned(), "S%", Some("(bres.varseg f 0)".to_owned()));
+    add("varseg", "DIM A(1)\nS% = VARSEG(A(1))\n".to_owned(), "S%", Some("(bres.varseg t 0)".to_owned()));
+    add("varseg", "DIM A(1)\nDIM B(1)\nS% = VARSEG(B(1))\n".to_owned(), "S%", Some("(bres.varseg t 1)".to_owned()));
+    // LBOUND / UBOUND at the ends of the INTEGER range (bounds are converted when the array is allocated)
+    for (lo, hi) in [(-32768i64, -32768i64), (32767, 32767), (0, 0), (-1, 1), (32760, 32767), (-32768, -32760)] {
+        let lo_s = if lo == -32768 { "(-32767 - 1)".to_owned() } else { format!("{}", lo) };
+        let hi_s = if hi == -32768 { "(-32767 - 1)".to_owned() } else { format!("{}", hi) };
+        add("lbound", format!("DIM A({} TO {}) AS INTEGER\nB% = LBOUND(A)\n", lo_s, hi_s), "B%", Some(format!("(bres.lbound {} {})", lo, hi)));
+        add("ubound", format!("DIM A({} TO {}) AS INTEGER\nB% = UBOUND(A)\n", lo_s, hi_s), "B%", Some(format!("(bres.ubound {} {})", lo, hi)));
+        add("ubound", format!("LO& = {}\nHI# = {}\nDIM A(LO& TO HI#) AS INTEGER\nB% = UBOUND(A)\n", lo_s, hi_s), "B%", Some(format!("(bres.ubound {} {})", lo, hi)));
+    }
+    add("ubound", "DIM A(1 TO 2, -5 TO 32767) AS INTEGER\nB% = UBOUND(A, 2)\n".to_owned(), "B%", Some("(bres.ubound -5 32767)".to_owned()));
+    add("lbound", "DIM A(1 TO 2, -5 TO 32767) AS INTEGER\nB% = LBOUND(A, 2)\n".to_owned(), "B%", Some("(bres.lbound -5 32767)".to_owned()));
+    // ERR: no error yet, after Overflow (alternative 3 of get_code), after Division by zero (6), after Subscript out of range (5)
+    add("err", "E% = ERR\n".to_owned(), "E%", Some("(bres.err 99)".to_owned()));
+    add("err", "ON ERROR RESUME NEXT\nA% = 32767\nA% = A% + 1\nE% = ERR\n".to_owned(), "E%", Some("(bres.err 3)".to_owned()));
+    add("err", "ON ERROR RESUME NEXT\nA% = 0\nB% = 1 / A%\nE% = ERR\n".to_owned(), "E%", Some("(bres.err 6)".to_owned()));
+    add("err", "ON ERROR RESUME NEXT\nDIM A(1 TO 2)\nA(3) = 1\nE% = ERR\n".to_owned(), "E%", Some("(bres.err 5)".to_owned()));
+    // PEEK: both bytes of INTEGERs at the ends of the byte range
+    for (x, lo, hi) in [(258i32, 2u8, 1u8), (-1, 255, 255), (255, 255, 0), (-32768, 0, 128)] {
+        let xs = if x == -32768 { "(-32767 - 1)".to_owned() } else { format!("{}", x) };
+        add("peek", format!("X% = {}\nDEF SEG = VARSEG(X%)\nP% = PEEK(VARPTR(X%))\n", xs), "P%", Some(format!("(bres.peek {})", lo)));
+        add("peek", format!("X% = {}\nDEF SEG = VARSEG(X%)\nP% = PEEK(VARPTR(X%) + 1)\n", xs), "P%", Some(format!("(bres.peek {})", hi)));
+    }
+    // CVD: the eight bytes of NaNs, infinities, the largest and smallest finite numbers, ordinary numbers,
+    // random words with the exponent field forced to all ones / near the bias / anything
+    let mut words: Vec<[u8; 8]> = vec![
+        [255; 8],
+        [0, 0, 0, 0, 0, 0, 240, 127],
+        [0, 0, 0, 0, 0, 0, 240, 255],
+        [0, 0, 0, 0, 0, 0, 248, 127],
+        [1, 0, 0, 0, 0, 0, 240, 127],
+        [255, 255, 255, 255, 255, 255, 239, 127],
+        [255, 255, 255, 255, 255, 255, 239, 255],
+        [0, 0, 0, 0, 0, 0, 0, 64],
+        [0, 0, 0, 0, 0, 0, 248, 63],
+        [0; 8],
+        [0, 0, 0, 0, 0, 0, 0, 128],
+        [1, 0, 0, 0, 0, 0, 0, 0],
+        [0, 0, 0, 0, 0, 0, 16, 0],
+        [0, 0, 0, 0, 0, 0, 224, 127],
+    ];
+    for k in 0..(if thorough { 3000 } else { 300 }) {
+        let mut w: u64 = rng.next_u64();
+        match k % 3 {
+            0 => w |= 0x7FF0_0000_0000_0000,
+            1 => {
+                let e: u64 = 1023 - 40 + rng.next_u64() % 80;
+                w = (w & 0x800F_FFFF_FFFF_FFFF) | (e << 52);
+            }
+            _ => {}
+        }
+        words.push(w.to_le_bytes());
+    }
+    for w in &words {
+        let expr: Vec<String> = w.iter().map(|b| format!("CHR$({})", b)).collect();
+        let req: Vec<String> = w.iter().map(|b| format!("{}", b)).collect();
+        add("cvd", format!("D# = CVD({})\n", expr.join(" + ")), "D#", Some(format!("(bres.cvd {})", req.join(" "))));
+    }
+    add("cvd", "D# = CVD(MKD$(1.5#))\nE! = CVD(MKD$(2.5#))\n".to_owned(), "D#", Some("(bres.cvd 0 0 0 0 0 0 248 63)".to_owned()));
+    // VAL: more digits than a DOUBLE can hold in front of / behind the point (the digit loop is not modelled: only
+    // the hand-over of an infinity is compared with the model)
+    for n in [5usize, 100, 308, 309, 400, 1000] {
+        let req = if n >= 309 { Some("(bres.val nonfinite)".to_owned()) } else { None };
+        add("val", format!("D# = VAL(\"1\" + STRING$({}, \"0\"))\n", n), "D#", req.clone());
+        add("val", format!("D# = VAL(\"-1\" + STRING$({}, \"0\"))\n", n), "D#", req.clone());
+        add("val", format!("D# = VAL(\".\" + STRING$({}, \"1\"))\n", n), "D#", None);
+        add("val", format!("D# = VAL(\"-.\" + STRING$({}, \"0\") + \"5\")\n", n), "D#", None);
+        add("val", format!("D# = VAL(\"99999999.\" + STRING$({}, \"1\"))\nS! = VAL(\"1\" + STRING$({}, \"0\"))\n", n, n), "D#", None);
+    }
+    // VARSEG of an element of the 28671st / 28672nd array: 4096 + 28671 = 32767 fits, one more does not
+    // (such a program has too many variables for the per-instruction dump: it prints the variable instead)
+    for n in [28671usize, 28672] {
+        let mut text = String::new();
+        for i in 0..n {
+            text.push_str(&format!("DIM A{}(1)\n", i));
+        }
+        text.push_str(&format!("S% = VARSEG(A{}(1))\nPRINT S%\n", n - 1));
+        cases.push(BuiltinCase { func: "varseg", text, var: "S%".to_owned(), req: Some(format!("(bres.varseg t {})", n - 1)), unobserved: true });
+    }
+    cases
 }
 
 fn suffix(q: TypeQualifier) -> &'static str {
@@ -1212,6 +1474,127 @@ fn main() {
             });
         }
     }
+    // ---- 4. results of built-in functions -------------------------------------------------------------
+    // A call of a built-in function has the function's static type, so no Cast precedes the store when the
+    // target has that type: what the built-in hands over is what the variable holds. For every numeric built-in
+    // x boundary arguments the result is stored in a variable and (a) the observer checks tag and range of every
+    // variable before every instruction (the property), (b) the outcome is compared with the model of the hand-over
+    // (RbModel.BuiltinRes through the driver).
+    let bcases = builtin_cases(&mut rng, thorough);
+    let breqs: Vec<String> = bcases.iter().filter_map(|c| c.req.clone()).collect();
+    let banswers = ask(&breqs);
+    let mut bi = 0usize;
+    let mut b_inexact = 0u64;
+    let mut b_compared = 0u64;
+    let mut b_outcomes: std::collections::BTreeMap<String, u64> = Default::default();
+    for (k, c) in bcases.iter().enumerate() {
+        rep.case(Some(format!("prog:{}", c.text)));
+        rep.bump(&format!("program.builtin-result.{}", c.func));
+        let answer: Option<String> = c.req.as_ref().map(|_| {
+            bi += 1;
+            banswers[bi - 1].clone()
+        });
+        let (o, last) = if c.unobserved { run_printed(&c.text, &c.var) } else { run_observed_watch(&c.text, b"", Some(&c.var)) };
+        checked_values += o.checked_values;
+        let kind = o.result.split_whitespace().next().unwrap_or("?").to_owned();
+        let overflowed = kind == "runtime-error" && o.result.contains("Overflow");
+        *b_outcomes.entry(if overflowed { "overflow".to_owned() } else { kind.clone() }).or_insert(0) += 1;
+        // a long program (tens of thousands of DIMs) is replayed from its last lines
+        let shown = if c.text.len() > 4000 {
+            format!("[{} lines DIM A<i>(1), i = 0 ..]\n{}", c.text.lines().count() - 2, c.text.lines().rev().take(2).collect::<Vec<_>>().into_iter().rev().collect::<Vec<_>>().join("\n"))
+        } else {
+            c.text.clone()
+        };
+        if kind == "panic" {
+            rep.fail(Failure {
+                kind: Kind::ImplVsProperty,
+                signature: format!("program:builtin-result:{}:panic", c.func),
+                input: shown.clone(),
+                implementation: "panic".into(),
+                expected: "a run or a BASIC error".into(),
+                note: String::new(),
+            });
+            continue;
+        }
+        if kind == "front-end-error" {
+            rep.fail(Failure {
+                kind: Kind::ModelVsImpl,
+                signature: "program:builtin-result:does-not-compile".into(),
+                input: shown.clone(),
+                implementation: o.result.clone(),
+                expected: "a generated test program compiles".into(),
+                note: "harness generator problem".into(),
+            });
+            continue;
+        }
+        // (a) the property: every variable of its declared type, in range, at all times
+        if !o.violations.is_empty() {
+            rep.fail(Failure {
+                kind: Kind::ImplVsProperty,
+                signature: format!(
+                    "program:builtin-result:{}:{}",
+                    c.func,
+                    if o.violations[0].contains("wrong tag") { "tag" } else { "range" }
+                ),
+                input: shown.clone(),
+                implementation: o.violations.join("; "),
+                expected: format!(
+                    "the result of {} stored in {} is a value of the variable's type within its range, or the call raises Overflow",
+                    c.func.to_uppercase(),
+                    c.var
+                ),
+                note: format!("run result: {}", o.result),
+            });
+        }
+        // (b) the model of the hand-over
+        if let Some(ans) = answer {
+            let sfx = c.var.chars().last().unwrap_or('%');
+            let verdict: Option<(String, String)> = if ans == "inexact" {
+                b_inexact += 1;
+                None
+            } else if ans == "(err overflow)" {
+                b_compared += 1;
+                if overflowed { None } else { Some(("Overflow".to_owned(), format!("{} {}={}", o.result, c.var, last.as_ref().map(show_variant).unwrap_or("unset".into())))) }
+            } else if let Some(v) = ans.strip_prefix("(ok ").and_then(|r| r.strip_suffix(")")) {
+                b_compared += 1;
+                // what the variable holds after the store: the value handed over, converted to the variable's type
+                let want = if let Some(n) = v.strip_prefix("(int ").and_then(|r| r.strip_suffix(")")) {
+                    match sfx {
+                        '%' => format!("(int {})", n),
+                        '&' => format!("(long {})", n),
+                        '!' => format!("(sgl {} 1)", n),
+                        _ => format!("(dbl {} 1)", n),
+                    }
+                } else {
+                    v.to_owned()
+                };
+                let got = last.as_ref().map(show_variant).unwrap_or("unset".into());
+                if kind == "ok" && got == want { None } else { Some((format!("ok, {} = {}", c.var, want), format!("{} {}={}", o.result, c.var, got))) }
+            } else {
+                Some((format!("a model answer, got {}", ans), o.result.clone()))
+            };
+            if let Some((want, got)) = verdict {
+                rep.fail(Failure {
+                    kind: Kind::ModelVsImpl,
+                    signature: format!("model:builtin-result:{}", c.func),
+                    input: shown.clone(),
+                    implementation: got,
+                    expected: want,
+                    note: format!("request {}", c.req.clone().unwrap_or_default()),
+                });
+            }
+        }
+        if k == 0 {
+            rep.sample(J::s(format!("{} => {}", shown, o.result)));
+        }
+    }
+    rep.notes.push(format!(
+        "built-in results: {} programs over 10 of the 11 numeric built-ins (LEN INSTR VARPTR VARSEG LBOUND UBOUND ERR PEEK CVD VAL; EOF needs a file and is exercised by C18), {} compared with the model of the hand-over, {} inexact (finite numbers outside the exact float domain: property only); outcomes {:?}",
+        bcases.len(),
+        b_compared,
+        b_inexact,
+        b_outcomes
+    ));
     rep.notes.push(format!(
         "program level: {} programs, {} variable observations; outcomes {:?}",
         programs.len(),
